@@ -193,6 +193,10 @@ func (f *File) register(path string) string {
 
 	// The prefix is only added if the name is an alias (a name that had to be changed is an alias)
 	prefixed := func(candidate string) string {
+		if candidate == "." {
+			// a dot-import has no name to prefix
+			return candidate
+		}
 		if f.PackagePrefix != "" && (alias || candidate != name) {
 			return f.PackagePrefix + "_" + candidate
 		}
